@@ -165,6 +165,11 @@ def _round(case):
             ok4, prod = c.lib("mul:" + rep, lambda: o * oy)
             if ok4:
                 c.eq("hom/mul:" + rep, m_of(prod), expect(TX @ TY, rep), TOL, sc)
+                if rep == "UnitDualQuaternion":
+                    # the library's own conversion of a PRODUCT (whose real part may have a negative scalar part), seeded C04_15
+                    ok6, ps = c.lib("mul:UDQ.SE3()", prod.SE3)
+                    if ok6:
+                        c.eq("hom/mul:UDQ.SE3()", m_of(ps), TX @ TY, TOL, sc)
             if rep != "UnitDualQuaternion":
                 ok5, iv = c.lib("inv:" + rep, o.inv)
                 if ok5:
